@@ -1,0 +1,8 @@
+//go:build verif
+
+package common
+
+// VerifVersionedPayload exposes the exact bytes hashed by PayloadHash.
+func (s *Snapshot) VerifVersionedPayload() []byte {
+	return s.versionedPayload()
+}
